@@ -66,7 +66,7 @@ def check(ctx, prop):
         if h is None or inv not in r.violated:
             raise Broken("deviation %s no longer violates %s in the model (vacuous deviation)" % (dev, inv))
         scheds.append({"len": 4, "steps": h}); labels.append("dev:" + dev)
-    n = 150 if quick else 2500
+    n = 150 if quick else 1200
     hs, _ = T.simulate_hists(ctx, d, "MC_DualS3.tla", "Sim_DualS3.cfg", num=n, depth=30, seed=ctx.seed)
     for h in hs:
         scheds.append({"len": 4, "steps": h}); labels.append("sim")
